@@ -906,6 +906,11 @@ func (fx *Fx) applyCall(st *State, fn *types.Func, recv *Val, args []Val, call *
 			if sexprMentions(cj, "ndirect") || sexprMentions(cj, "ndirectTrue") {
 				continue
 			}
+			// calls a callee makes through function values appear as opaque events in the caller's log: a clause about
+			// the callee's FnCall events says nothing about the caller's counters
+			if sexprMentions(cj, "FnCall") || sexprMentions(cj, "isFnCall") {
+				continue
+			}
 			st.assume(fx.specBool(env, cj))
 		}
 	}
